@@ -5,7 +5,8 @@
   The models have the shape `run = mkRun (fail? …) (apply …)`, so panic-freedom is
   `fail? ≠ some .panic`.  The Go partial operations behind `Failure.panic` are
     * the visitor / a hook dereferencing a nil kind pointer (`Ty.bad`)            → `NoBad`
-    * constant_to_enum: `Value.(string)` on a string scalar holding a non-string  → `ScalarConstantsTyped`
+    * constant_to_enum: unconditional since fix 637545e; before it `Value.(string)` on a string scalar holding a
+      non-string → `ScalarConstantsTyped` (`constantToEnumPreFix_total`)
     * hint_object: since fix d683cb9 in /repo the nil `Hints` map is made first: total under `NoBad`
     * PrefixObjectNames: `Hints[disjunction_of_refs].(DisjunctionType)`           → `NoRawDisjunctionHint`
   `NoBad` is part of `wfIR`; the other three hold for every IR produced by a front-end (their
@@ -26,6 +27,32 @@ def eptFine (t : Ty) : Bool :=
 
 def NoBad (S : Schemas) : Bool :=
   S.all fun s => eptFine s.entryPointType && s.objects.all fun ko => noBadTy ko.2.ty
+
+theorem objectsWf_noBad : ∀ os : Objects, Cog.NF.objectsWf os = true → (os.all fun ko => noBadTy ko.2.ty) = true
+  | [], _ => rfl
+  | (k, o) :: rest, h => by
+    simp only [Cog.NF.objectsWf, Bool.and_eq_true] at h
+    simp [h.1.2, objectsWf_noBad rest h.2]
+
+theorem eptFine_of_eptOk (t : Ty) (h : Cog.NF.eptOk t = true) : eptFine t = true := by
+  unfold Cog.NF.eptOk at h
+  split at h
+  · simp [eptFine, noBadTy]
+  · simp [eptFine]
+  · cases h
+
+theorem nfWf_noBad : ∀ S : Schemas, Cog.NF.wfIR S = true → NoBad S = true
+  | [], _ => rfl
+  | s :: ss, h => by
+    simp only [Cog.NF.wfIR, Bool.and_eq_true] at h
+    have := nfWf_noBad ss h.2
+    simp only [NoBad, List.all_cons, Bool.and_eq_true] at this ⊢
+    exact ⟨⟨eptFine_of_eptOk _ h.1.1, objectsWf_noBad _ h.1.2⟩, this⟩
+
+/-- `NoBad` is a consequence of `wfIR` -/
+theorem noBad_of_wf (S : Schemas) (h : wfIR S = true) : NoBad S = true := by
+  simp only [wfIR, Bool.and_eq_true] at h
+  exact nfWf_noBad S h.1
 
 def scalarConstantTyped (o : Obj) : Bool :=
   match o.ty with
@@ -339,7 +366,6 @@ theorem firstMatchFail_ne_panic (p : RetypeField.Params) (o : Obj) (hp : typeNam
 def xfCond : Xf → Schemas → Bool
   | .retypeObject p, S => NoBad S && typeNameOk p.as_
   | .retypeField p, S => NoBad S && typeNameOk p.as_
-  | .constantToEnum _, S => NoBad S && ScalarConstantsTyped S
   | .prefixObjectNames _, S => NoBad S && NoRawDisjunctionHint S
   | _, S => NoBad S
 
@@ -347,6 +373,40 @@ theorem objFail_badStruct_ne_panic (f : Obj → Option Failure)
     (hf : ∀ o, (∀ k m, o.ty ≠ .bad k m) → f o ≠ some .panic) (S : Schemas) (hb : NoBad S = true) :
     firstFail (visitSchemaFail (walkFail []) f) S ≠ some .panic :=
   visitorFail_ne_panic S hb [] f (fun _ _ ko _ hnb => hf ko.2 (notBadStruct_of_noBad hnb))
+
+/-- before fix 637545e of /repo `constant_to_enum` asserted `Value.(string)`: total only when string
+    scalars hold string constants (`ScalarConstantsTyped`); witness of the failure in Props/C04 -/
+theorem constantToEnumPreFix_total (p : ConstantToEnum.Params) (S : Schemas)
+    (h : (NoBad S && ScalarConstantsTyped S) = true) : isPanic (ConstantToEnum.runPreFix p S) = false := by
+  simp only [Bool.and_eq_true] at h
+  refine mkRun_noPanic _ _ (visitorFail_ne_panic S h.1 [] _ ?_)
+  intro s hs ko hko hnb
+  have hc : scalarConstantTyped ko.2 = true := by
+    have := h.2
+    simp only [ScalarConstantsTyped, List.all_eq_true] at this
+    exact this s hs ko hko
+  simp only [ConstantToEnum.objFailPreFix]
+  split
+  · cases ht : ko.2.ty with
+    | bad k m => exact absurd ht (notBadStruct_of_noBad hnb k m)
+    | scalar k v cs m =>
+      simp only [scalarConstantTyped, ht, Bool.or_eq_true] at hc
+      simp only []
+      split
+      · simp
+      · rename_i hcond
+        cases v with
+        | str _ => simp
+        | nil => simp [ConstantToEnum.isNilVal] at hcond
+        | bool _ => rcases hc with (hc | hc) | hc <;> simp_all [ConstantToEnum.isNilVal, scalarConstantTyped.isStrConst]
+        | int _ _ => rcases hc with (hc | hc) | hc <;> simp_all [ConstantToEnum.isNilVal, scalarConstantTyped.isStrConst]
+        | float _ _ => rcases hc with (hc | hc) | hc <;> simp_all [ConstantToEnum.isNilVal, scalarConstantTyped.isStrConst]
+        | jnum _ => rcases hc with (hc | hc) | hc <;> simp_all [ConstantToEnum.isNilVal, scalarConstantTyped.isStrConst]
+        | list _ => rcases hc with (hc | hc) | hc <;> simp_all [ConstantToEnum.isNilVal, scalarConstantTyped.isStrConst]
+        | map _ => rcases hc with (hc | hc) | hc <;> simp_all [ConstantToEnum.isNilVal, scalarConstantTyped.isStrConst]
+        | other _ _ => rcases hc with (hc | hc) | hc <;> simp_all [ConstantToEnum.isNilVal, scalarConstantTyped.isStrConst]
+    | _ => simp
+  · simp
 
 theorem xform_total (x : Xf) (S : Schemas) (h : xfCond x S = true) : isPanic (x.run S) = false := by
   cases x with
@@ -418,35 +478,12 @@ theorem xform_total (x : Xf) (S : Schemas) (h : xfCond x S = true) : isPanic (x.
     exact mkRun_noPanic _ _ (visitorFail_ne_panic S h ["ref"] _
       (fun _ _ ko _ hnb => by rw [walkFail_none _ _ hnb]; simp))
   | constantToEnum p =>
-    simp only [xfCond, Bool.and_eq_true] at h
-    refine mkRun_noPanic _ _ (visitorFail_ne_panic S h.1 [] _ ?_)
-    intro s hs ko hko hnb
-    have hc : scalarConstantTyped ko.2 = true := by
-      have := h.2
-      simp only [ScalarConstantsTyped, List.all_eq_true] at this
-      exact this s hs ko hko
+    refine mkRun_noPanic _ _ (objFail_badStruct_ne_panic _ ?_ S h)
+    intro o hnb
     simp only [ConstantToEnum.objFail]
-    split
-    · cases ht : ko.2.ty with
-      | bad k m => exact absurd ht (notBadStruct_of_noBad hnb k m)
-      | scalar k v cs m =>
-        simp only [scalarConstantTyped, ht, Bool.or_eq_true] at hc
-        simp only []
-        split
-        · simp
-        · rename_i hcond
-          cases v with
-          | str _ => simp
-          | nil => simp [ConstantToEnum.isNilVal] at hcond
-          | bool _ => rcases hc with (hc | hc) | hc <;> simp_all [ConstantToEnum.isNilVal, scalarConstantTyped.isStrConst]
-          | int _ _ => rcases hc with (hc | hc) | hc <;> simp_all [ConstantToEnum.isNilVal, scalarConstantTyped.isStrConst]
-          | float _ _ => rcases hc with (hc | hc) | hc <;> simp_all [ConstantToEnum.isNilVal, scalarConstantTyped.isStrConst]
-          | jnum _ => rcases hc with (hc | hc) | hc <;> simp_all [ConstantToEnum.isNilVal, scalarConstantTyped.isStrConst]
-          | list _ => rcases hc with (hc | hc) | hc <;> simp_all [ConstantToEnum.isNilVal, scalarConstantTyped.isStrConst]
-          | map _ => rcases hc with (hc | hc) | hc <;> simp_all [ConstantToEnum.isNilVal, scalarConstantTyped.isStrConst]
-          | other _ _ => rcases hc with (hc | hc) | hc <;> simp_all [ConstantToEnum.isNilVal, scalarConstantTyped.isStrConst]
-      | _ => simp
-    · simp
+    cases ht : o.ty with
+    | bad k m => exact absurd ht (hnb k m)
+    | _ => simp
   | trimEnumValues =>
     exact mkRun_noPanic _ _ (visitorFail_ne_panic S h ["enum"] _
       (fun _ _ ko _ hnb => by rw [walkFail_none _ _ hnb]; simp))
